@@ -4,6 +4,7 @@ import SqlizeModel.Impl.ReaderMysql
 import SqlizeModel.Impl.Diff
 import SqlizeModel.Impl.Emit
 import SqlizeModel.Impl.Render
+import SqlizeModel.Impl.Api
 import SqlizeModel.Spec.Props
 import SqlizeModel.Spec.Grammar
 import SqlizeModel.Spec.Scope
@@ -21,11 +22,6 @@ def expectOutcome (what : String) (model : M String) (impl : String) : Verdict :
   | .error e =>
     if isUnmodelledMsg e then unmodelled e
     else if isPanic impl then okV else corrFail what ("panic:" ++ e) impl
-
-def readScript (g : Globals) (m : Migration) (ss : List Stmt) : M Migration :=
-  match g.dialect with
-  | .mysql => ReaderMysql.run m ss
-  | _ => .error "UNMODELLED reader for this dialect"
 
 structure PairRun where
   mOld : M Migration
